@@ -123,6 +123,12 @@ def runner(rep, tier, seed, replay):
         line = '%s ; vpa Q%d "$A"' % (pre_cmd, k)
         jobs.append({"entry": "c", "text": line, "timeout": 6, "want_files": False})
         meta.append(("qassign", "quoted-assignment", line, ["Q%d" % k], [], [val], {"t": pre_cmd, "feat": {"quoted_assignment": True}}, False, None))
+    # ---- a pattern whose directory part comes from a variable and holds characters that shape other expansions (, { } `): the
+    # file system is asked with the real characters
+    for k, dn in enumerate(("a,b", "c{d", "e}f", "g`h", "i,j{k}")):
+        line = "vpa G%d $D/*" % k
+        jobs.append({"entry": "c", "text": line, "timeout": 6, "want_files": False, "env": {"D": dn}, "files": {dn + "/f1": "", dn + "/f2": ""}})
+        meta.append(("qassign", "glob-under-value", line, ["G%d" % k], [], [dn + "/f1", dn + "/f2"], {"t": dn, "feat": {"glob_under_value": True}}, False, None))
     # ---- tilde (fixed table; HOME is the scratch home)
     for w, kind in [("~", "home"), ("~/a", "home-slash"), ("a~", "literal"), ("'~'", "quoted"), ('"~/x"', "quoted"), ("x/~", "literal"), ("~a", "other-user")]:
         line = "vpa L %s R" % w
